@@ -386,6 +386,9 @@ package godi
 //@        (callret("atomic.Load:disposed", ncalls("atomic.Load:disposed") - 1, 0, "int32") != 0 ==> result0 == nil && result1 == ErrScopeDisposed)
 //@        && (callret("atomic.Load:disposed", ncalls("atomic.Load:disposed") - 1, 0, "int32") == 0 ==> result0 == callret("scope.construct", 0, 0) && result1 == nil)
 //@   ensures[C15] error_means_no_value: result1 != nil ==> result0 == nil
+// like resolve and construct, createScoped itself neither adds to nor removes from the tables of the scope (C02/C15 'a failed resolution leaves
+// the services that were successfully constructed on the way' in place)
+//@   ensures[C02,C15] createScoped_itself_never_writes_a_table: ncalls("scope.instancesMu.Lock") == 0 && ncalls("scope.disposablesMu.Lock") == 0
 // a resolution that waited for a construction is a resolution whose construction overlaps Close, like the constructing one (C13)
 //@   at before return#6 : assert[C13] a_waiter_overlapping_close_reports_the_disposed_error: ncalls("atomic.Load:disposed") >= 1 && callret("atomic.Load:disposed", ncalls("atomic.Load:disposed") - 1, 0, "int32") == 0
 // every announcement made by this call is withdrawn again by this call: by construct, or by release when the cache had the instance meanwhile
